@@ -510,6 +510,11 @@ func checkOperands(c *Ctx, rule, fname string, terms []*Terminal, fields []strin
 			}
 			seen[k] = true
 			good := (tc.a == nowAP && okBound[tc.b]) || (tc.b == nowAP && okBound[tc.a])
+			if okBound[tc.a] && okBound[tc.b] {
+				// two signed bounds compared with each other (no clock involved): what it implies for the outcomes is
+				// decided by the truth tables over the orderings that remain consistent
+				continue
+			}
 			c.check(good, rule, fname, "operands of "+tc.op+" on "+strings.Join(fields, "/"), c.P.Pos(terms[0].Fn.Pos()),
 				"operands are the SP clock and the RFC 3339 parse of the field: "+k,
 				"time comparison with modified or foreign operands: "+k+" (want "+nowAP+" against time.Parse(RFC3339, field))")
